@@ -39,7 +39,7 @@ package main
 //	N <n> <electionTick> <rngseed> <MaxSizePerMsg> <k: initial voters 1..k, 0 = all> <flags: 1 PreVote, 2 CheckQuorum, 4 learners, 8 TransferLeader events>
 //	EV <kind> <node> <args>
 //	OUT <msg>                     (0 or more: what the node handed to the network)
-//	ST <node> <term> <vote> <commit> <role F|C|L> <lead> <nlog> (<term> <payload>)* [CFG <nin> ids <nout> ids <autoleave>]
+//	ST <node> <term> <vote> <commit> <role F|C|L> <lead> <nlog> (<term> <payload>)* [CFG <nin> ids <nout> ids <autoleave> <nlearners> ids]
 //
 //	<msg> = <type> <from> <to> <term> <logterm> <index> <commit> <reject 0|1> <nents> (<term> <payload>)*
 //	type: V MsgVote, W MsgVoteResp, A MsgApp, B MsgAppResp, H MsgHeartbeat, I MsgHeartbeatResp,
@@ -161,6 +161,8 @@ func ccCode(cc pb.ConfChangeV2) uint64 {
 			return 100 + cc.Changes[0].NodeID
 		case pb.ConfChangeRemoveNode:
 			return 110 + cc.Changes[0].NodeID
+		case pb.ConfChangeAddLearnerNode:
+			return 300 + cc.Changes[0].NodeID
 		}
 	case len(cc.Changes) == 2 && cc.Transition == pb.ConfChangeTransitionAuto &&
 		cc.Changes[0].Type == pb.ConfChangeAddNode && cc.Changes[1].Type == pb.ConfChangeRemoveNode &&
@@ -392,7 +394,14 @@ func (c *cluster) writeState(nd *simNode) {
 		if nd.autoLeave {
 			auto = 1
 		}
-		fmt.Fprintf(c.w, " CFG %s %s %d", idsStr(cfg.Voters[0]), idsStr(cfg.Voters[1]), auto)
+		learners := map[uint64]struct{}{}
+		for id := range cfg.Learners {
+			learners[id] = struct{}{}
+		}
+		for id := range cfg.LearnersNext {
+			learners[id] = struct{}{}
+		}
+		fmt.Fprintf(c.w, " CFG %s %s %d %s", idsStr(cfg.Voters[0]), idsStr(cfg.Voters[1]), auto, idsStr(learners))
 	}
 	fmt.Fprintln(c.w)
 }
@@ -729,7 +738,7 @@ func cmdSim(args []string) error {
 		}
 		flags := 0
 		if simWithConfChanges && n >= 2 && r.chance(1, 4) {
-			flags = 4 // learners too: outside the membership-change model, monitored only
+			flags = 4 // learners too (add learner, promote, demote a voter)
 		}
 		if simWithPreVote {
 			// PreVote on; CheckQuorum on in half of the schedules; a small election timeout in half
